@@ -1,2 +1,126 @@
-"""C10 - note move: file-level contracts."""
-from engine.spec import T, contract, forall, implies
+"""C10 - note move: file-level contracts over the file-system model.
+
+Files are lists of newline-free lines joined by "\\n" (what read_text().split("\\n") yields); the lists are bounded
+(bounded-symbolic), every line is fully symbolic.
+"""
+import os
+
+from engine.spec import T, contract, forall, fullmatch, fs_exists, fs_only_changed, fs_read, fs_unchanged, implies
+from zorg.domain.models import Note
+from zorg.storage.file import FileManager
+
+NL = 4 if os.environ.get("VERIF_TIER") != "thorough" else 6
+PATH = T.rec("Path", {"s": T.str()})
+F = "zorg.storage.file._manager:FileManager."
+BOUNDED = f"bounded-symbolic: files of at most {NL} lines and notes of at most 2 lines; every line fully symbolic"
+
+
+def _file_prelude(interp, loc):
+    """the note's page holds 1..NL newline-free lines; the note body has 1..2 lines"""
+    import z3
+    from engine import models, sym
+
+    ctx = interp.ctx
+    lines = sym.TCList(sym.TStr(), 1, NL).fresh(ctx, "line")
+    body_lines = sym.TCList(sym.TStr(), 1, 2).fresh(ctx, "bodyline")
+    for w in lines + body_lines:
+        ctx.assume(z3.Not(z3.Contains(w.t, z3.StringVal("\n"))))
+    fm = sym.Rec("FileManager", {"_zdir": PATH.fresh(ctx, "zdir")}, cls=FileManager)
+    note = sym.Rec("Note", {"zid": sym.TStr().fresh(ctx, "zid"), "file_path": PATH.fresh(ctx, "file_path"),
+                            "line_no": sym.TInt(1, None).fresh(ctx, "line_no"),
+                            "body": models.str_method(interp, "\n", "join", [body_lines], {})}, cls=Note)
+    loc["self"], loc["note"] = fm, note
+    loc["_ghost_lines"], loc["_ghost_body_lines"] = lines, body_lines
+    # the file system holds the page with exactly these lines
+    from contracts import c16
+
+    g = models.fs_state(interp)
+    page = interp.call(interp.wrap_global(c16.page_path), [fm.fields["_zdir"], note.fields["file_path"]], {})
+    ps = sym.zstr(page.fields["s"])
+    content = models.str_method(interp, "\n", "join", [lines], {})
+    g["fs_exists"] = z3.Store(g["fs_exists"], ps, True)
+    g["fs_content"] = z3.Store(g["fs_content"], ps, sym.zstr(content))
+    loc["_ghost_page"] = page
+
+
+def own_lines_at(lines, note, body_lines):
+    """the index agrees with the file: the note's lines stand at its recorded line number and the first one carries the ZID"""
+    k = note.line_no - 1
+    return (k + len(body_lines) <= len(lines) and (" " + note.zid + " ") in lines[k]
+            and all(lines[k + j].endswith(body_lines[j]) if j == 0 else lines[k + j] == body_lines[j] for j in range(len(body_lines))))
+
+
+def mentioned_earlier(lines, note):
+    """the ZID occurs, surrounded by spaces, on a line before the note's own first line (known finding F11)"""
+    return any((" " + note.zid + " ") in lines[j] for j in range(len(lines)) if j < note.line_no - 1)
+
+
+def without_own_lines(lines, note, body_lines):
+    k = note.line_no - 1
+    return "\n".join(lines[:k] + lines[k + len(body_lines):])
+
+
+contract(
+    F + "delete_note", props=["C10"], args={}, prelude=_file_prelude, list_bound=NL, bounded_note=BOUNDED,
+    requires={"index-agrees-with-file": "own_lines_at(_ghost_lines, note, _ghost_body_lines)",
+              "zid-shape": "fullmatch('[0-9]{6}#[0-9A-Za-z]{2,3}', note.zid)"},
+    ensures={
+        "exactly-the-notes-own-lines-are-removed": "result is None and fs_read(_ghost_page) == without_own_lines(_ghost_lines, note, _ghost_body_lines)",
+        "no-other-file-changes": "fs_only_changed(_ghost_page)",
+    },
+)
+
+
+# ---- add_note: the note's text takes the place of one blank line; every other line is kept, in order ----
+def _dest_prelude(interp, loc):
+    import z3
+    from engine import models, sym
+
+    ctx = interp.ctx
+    lines = sym.TCList(sym.TStr(), 1, NL).fresh(ctx, "line")
+    for w in lines:
+        ctx.assume(z3.Not(z3.Contains(w.t, z3.StringVal("\n"))))
+        ctx.assume(z3.InRe(w.t, z3.Star(z3.Range(z3.StringVal(chr(0)), z3.StringVal(chr(127))))))
+    fm = sym.Rec("FileManager", {"_zdir": PATH.fresh(ctx, "zdir")}, cls=FileManager)
+    note = sym.Rec("Note", {"body": sym.TStr().fresh(ctx, "body"), "todo_payload": None}, cls=Note)
+    page_arg = PATH.fresh(ctx, "page")
+    loc["self"], loc["note"], loc["page"] = fm, note, page_arg
+    loc["_ghost_lines"] = lines
+    from contracts import c16
+
+    g = models.fs_state(interp)
+    page = interp.call(interp.wrap_global(c16.page_path), [fm.fields["_zdir"], page_arg], {})
+    ps = sym.zstr(page.fields["s"])
+    content = models.str_method(interp, "\n", "join", [lines], {})
+    if ctx.branch(ctx.fresh("dest_exists", z3.BoolSort()), "destination exists"):
+        g["fs_exists"] = z3.Store(g["fs_exists"], ps, True)
+        g["fs_content"] = z3.Store(g["fs_content"], ps, sym.zstr(content))
+        loc["_ghost_exists"] = True
+    else:
+        g["fs_exists"] = z3.Store(g["fs_exists"], ps, False)
+        loc["_ghost_exists"] = False
+    loc["_ghost_page"] = page
+
+
+def blank(s):
+    return s.strip() == ""
+
+
+def note_text(note):
+    return "- " + note.body.strip() + "\n"
+
+
+def inserted_at(lines, k, text):
+    return "\n".join(lines[:k] + text.split("\n") + lines[k + 1:])
+
+
+contract(
+    F + "add_note", props=["C10"], args={}, prelude=_dest_prelude, list_bound=NL + 2, bounded_note=BOUNDED,
+    requires={"page-ends-with-a-newline (a page whose last item lacks it is not a valid page)": "_ghost_lines[len(_ghost_lines) - 1] == ''"},
+    ensures={
+        "missing-destination-is-an-error-and-nothing-is-written": "implies(not _ghost_exists, result is not None and fs_unchanged())",
+        "note-replaces-one-blank-line-everything-else-kept": "implies(_ghost_exists, result is None and any(blank(_ghost_lines[k]) and "
+                                                             "fs_read(_ghost_page) == inserted_at(_ghost_lines, k, note_text(note)) for k in range(len(_ghost_lines))))",
+        "no-other-file-changes": "fs_only_changed(_ghost_page)",
+    },
+)
